@@ -1495,6 +1495,9 @@ fn replay(v: &Value) -> CaseReport {
     if let Some(a) = v.get("refused_reentrant").and_then(|a| a.as_u64()) {
         return refused_reentrant_probe(a as u8);
     }
+    if let Some(a) = v.get("fork_then_use").and_then(|a| a.as_array()) {
+        return fork_then_use_probe(a[0].as_u64().unwrap_or(0) as u8, a[1].as_u64().unwrap_or(1) as u8);
+    }
     if let Some(a) = v.get("inflight_anchor").and_then(|a| a.as_array()) {
         return inflight_anchor(a[0].as_u64().unwrap_or(0) as u8, a[1].as_u64().unwrap_or(600));
     }
@@ -1947,8 +1950,202 @@ pub fn refused_reentrant_probe(variant: u8) -> CaseReport {
     rep
 }
 
+/// Use after fork (real threads, real signals): a process uses the registry, forks, and the child
+/// - a fresh, multi-threaded user of the inherited registry - makes its first mutator call while
+/// a delivery is in flight on another of its threads, then further mutator calls once that
+/// delivery has returned. Those later calls overlap nothing and must return on their own; the
+/// action removed before the fork must stay removed, the inherited one must still run.
+/// `first`: 0 register on the busy signal, 1 register on another signal, 2 unregister of an id
+/// issued before the fork, 3 a new iterator instance, 4 unregister of a stale id;
+/// `inflight`: number of threads with a delivery in flight during that first call.
+pub fn fork_then_use_probe(first: u8, inflight: u8) -> CaseReport {
+    use std::sync::atomic::{AtomicBool, AtomicUsize, Ordering};
+    static RELEASE: AtomicBool = AtomicBool::new(false);
+    static ENTERED: AtomicUsize = AtomicUsize::new(0);
+    static KEPT_RAN: AtomicUsize = AtomicUsize::new(0);
+    static REMOVED_RAN: AtomicUsize = AtomicUsize::new(0);
+    let inflight = inflight.clamp(1, 3);
+    let (recs, end) = crate::forkrun::fork_stream(30_000, move |fd| {
+        crate::vsched::install();
+        crate::forkrun::ignore_sigpipe();
+        // ---- the parent-to-be uses the registry
+        let busy = libc::SIGUSR1;
+        let kept = unsafe {
+            registry::register(busy, || {
+                KEPT_RAN.fetch_add(1, Ordering::SeqCst);
+                ENTERED.fetch_add(1, Ordering::SeqCst);
+                // a slow action: stays in flight until released (bounded: 10 s)
+                let t0 = std::time::Instant::now();
+                while !RELEASE.load(Ordering::SeqCst) && t0.elapsed().as_secs() < 10 {
+                    std::hint::spin_loop();
+                }
+            })
+        };
+        let removed = unsafe {
+            registry::register(busy, || {
+                REMOVED_RAN.fetch_add(1, Ordering::SeqCst);
+            })
+        };
+        let (kept, removed) = match (kept, removed) {
+            (Ok(a), Ok(b)) => (a, b),
+            _ => return,
+        };
+        RELEASE.store(true, Ordering::SeqCst);
+        unsafe { libc::raise(busy) };
+        registry::unregister(removed);
+        RELEASE.store(false, Ordering::SeqCst);
+        ENTERED.store(0, Ordering::SeqCst);
+        KEPT_RAN.store(0, Ordering::SeqCst);
+        REMOVED_RAN.store(0, Ordering::SeqCst);
+        // ---- fork: the rest runs in the child of this process
+        let pid = unsafe { libc::fork() };
+        if pid < 0 {
+            return;
+        }
+        if pid > 0 {
+            let mut st = 0;
+            unsafe { libc::waitpid(pid, &mut st, 0) };
+            if libc::WIFSIGNALED(st) {
+                crate::forkrun::emit(fd, &json!({"k": "grandchild-killed", "sig": libc::WTERMSIG(st)}));
+            }
+            return;
+        }
+        unsafe { libc::prctl(libc::PR_SET_PDEATHSIG, libc::SIGKILL) };
+        let mut ths = Vec::new();
+        for _ in 0..inflight {
+            ths.push(std::thread::spawn(move || unsafe {
+                libc::raise(busy);
+            }));
+        }
+        // wait until every delivery is inside the slow action
+        let t0 = std::time::Instant::now();
+        while ENTERED.load(Ordering::SeqCst) < inflight as usize && t0.elapsed().as_secs() < 5 {
+            std::thread::yield_now();
+        }
+        let all_in = ENTERED.load(Ordering::SeqCst) >= inflight as usize;
+        // somebody lets the deliveries go a little later - the first mutator call may have to
+        // wait for them (that is the point of the half-lock), so it cannot be this thread
+        let releaser = std::thread::spawn(|| {
+            std::thread::sleep(std::time::Duration::from_millis(30));
+            RELEASE.store(true, Ordering::SeqCst);
+        });
+        crate::forkrun::emit(fd, &json!({"k": "first-call", "all_in_flight": all_in}));
+        let mut keep: Vec<Box<dyn std::any::Any>> = Vec::new();
+        match first % 5 {
+            0 => {
+                let _ = unsafe { registry::register(busy, || ()) };
+            }
+            1 => {
+                let _ = unsafe { registry::register(libc::SIGUSR2, || ()) };
+            }
+            2 => {
+                registry::unregister(kept);
+            }
+            3 => {
+                if let Ok(s) = signal_hook::iterator::Signals::new(&[libc::SIGUSR2]) {
+                    keep.push(Box::new(s));
+                }
+            }
+            _ => {
+                registry::unregister(removed);
+            }
+        }
+        crate::forkrun::emit(fd, &json!({"k": "first-returned"}));
+        let _ = releaser.join();
+        for t in ths {
+            let _ = t.join();
+        }
+        // every delivery has returned, no new one arrives: from here on a mutator is alone
+        crate::forkrun::emit(fd, &json!({"k": "quiet", "kept_ran": KEPT_RAN.load(Ordering::SeqCst), "removed_ran": REMOVED_RAN.load(Ordering::SeqCst)}));
+        let done = std::sync::Arc::new(AtomicBool::new(false));
+        let d2 = done.clone();
+        let fd2 = fd;
+        std::thread::spawn(move || {
+            // watchdog inside the case: the later calls need microseconds
+            for _ in 0..800 {
+                std::thread::sleep(std::time::Duration::from_millis(10));
+                if d2.load(Ordering::SeqCst) {
+                    return;
+                }
+            }
+            crate::forkrun::emit(fd2, &json!({"k": "later-calls-stuck"}));
+            unsafe { libc::_exit(0) };
+        });
+        let mut ok = true;
+        for i in 0..6 {
+            match unsafe { registry::register(if i % 2 == 0 { busy } else { libc::SIGUSR2 }, || ()) } {
+                Ok(id) => ok &= registry::unregister(id),
+                Err(_) => ok = false,
+            }
+        }
+        drop(keep);
+        done.store(true, Ordering::SeqCst);
+        crate::forkrun::emit(fd, &json!({"k": "later-returned", "ok": ok}));
+        crate::forkrun::emit(fd, &json!({"k": "done"}));
+    });
+    let mut rep = CaseReport::default();
+    rep.class("first-use-in-a-forked-child-under-a-delivery");
+    rep.nontrivial = true;
+    rep.hash = hash_of(&("fork-then-use", first, inflight));
+    rep.sample = Some(json!({"fork_then_use": [first, inflight], "records": recs, "end": format!("{:?}", end)}));
+    let has = |k: &str| recs.iter().any(|r| r["k"] == k);
+    if let Some(k) = recs.iter().find(|r| r["k"] == "grandchild-killed") {
+        rep.viol(&format!("crash/sig={}", k["sig"]), format!("use after fork: the child was killed by signal {}", k["sig"]));
+        return rep;
+    }
+    match &end {
+        crate::forkrun::End::Infra(e) => {
+            rep.inconclusive = Some(e.clone());
+            return rep;
+        }
+        crate::forkrun::End::Timeout => {
+            rep.inconclusive = Some("fork-then-use probe timed out".into());
+            return rep;
+        }
+        _ => {}
+    }
+    if !has("first-call") {
+        rep.inconclusive = Some("fork-then-use probe: set-up did not complete".into());
+        return rep;
+    }
+    if recs.iter().find(|r| r["k"] == "first-call").map_or(true, |r| r["all_in_flight"] != true) {
+        rep.inconclusive = Some("fork-then-use probe: the deliveries did not get in flight in time".into());
+        return rep;
+    }
+    if has("later-calls-stuck") {
+        rep.viol("C18/needs-other-thread", format!("a process used the registry and forked; in the child the first registry call (variant {}) overlapped {} in-flight deliver{}; after all of them had returned and with no further delivery, six register/unregister pairs did not finish within 8 s (they need microseconds): the registry is wedged for the rest of that process", first % 5, inflight, if inflight == 1 { "y" } else { "ies" }));
+        return rep;
+    }
+    if let Some(q) = recs.iter().find(|r| r["k"] == "quiet") {
+        if q["removed_ran"].as_u64().unwrap_or(0) > 0 {
+            rep.viol("C01/ran-after-removal", format!("use after fork: an action removed before the fork ran {} time(s) in the child", q["removed_ran"]));
+        }
+        if q["kept_ran"].as_u64() != Some(inflight as u64) {
+            rep.viol("C02/missed", format!("use after fork: the inherited action ran {} time(s) for {} deliveries", q["kept_ran"], inflight));
+        }
+    }
+    match recs.iter().find(|r| r["k"] == "later-returned") {
+        Some(r) => {
+            if r["ok"] != true {
+                rep.viol("C05/ret@register", "use after fork: a register/unregister pair in the child failed".into());
+            }
+        }
+        None => rep.inconclusive = Some(format!("fork-then-use probe ended early ({:?})", end)),
+    }
+    rep
+}
+
 fn c18_extra(def: &PropDef, _args: &WorkerArgs, report: &mut WorkerReport) {
     let known = Known::load();
+    for first in 0..5u8 {
+        for inflight in [1u8, 2] {
+            let rep = fork_then_use_probe(first, inflight);
+            if let Some(x) = report.absorb(def, &rep, &known) {
+                report.violation = Some((x.key, x.msg, json!({"fork_then_use": [first, inflight]})));
+                return;
+            }
+        }
+    }
     for v in 0..4u8 {
         let rep = refused_reentrant_probe(v);
         if let Some(x) = report.absorb(def, &rep, &known) {
